@@ -70,6 +70,8 @@ from .annotationparser import (
     OPT_TRANSFER_CONTAINER,
     OPT_TRANSFER_FLOATING,
     OPT_TRANSFER_NONE,
+    SCOPE_OPTIONS,
+    TRANSFER_OPTIONS,
 )
 
 from .utils import to_underscores_noprefix
@@ -668,6 +670,9 @@ class MainTransformer(object):
             return
 
         transfer = transfer_annotation[0]
+        if transfer not in TRANSFER_OPTIONS:
+            # already reported by the annotation parser
+            return
 
         target = self._transformer.lookup_typenode(node.type)
         target = self._transformer.resolve_aliases(target)
@@ -881,7 +886,8 @@ class MainTransformer(object):
             return
 
         scope_annotation = annotations.get(ANN_SCOPE)
-        if scope_annotation and len(scope_annotation) == 1:
+        if (scope_annotation and len(scope_annotation) == 1
+                and scope_annotation[0] in SCOPE_OPTIONS):
             param.scope = scope_annotation[0]
 
         destroy_annotation = annotations.get(ANN_DESTROY)
